@@ -36,6 +36,20 @@ func unhexStr(s string) string {
 	return string(b)
 }
 
+// cvShifted is a fittable predictor that does not pass through its data points: it predicts
+// the first fitted value plus one everywhere (any other "fittable predictor" is allowed by the
+// option; fixes with fresh readings must keep their logged values whatever it predicts).
+type cvShifted struct{ y0 float64 }
+
+func (p *cvShifted) Fit(xs, ys []float64) error {
+	if len(ys) > 0 {
+		p.y0 = ys[0]
+	}
+	return nil
+}
+
+func (p *cvShifted) Predict(float64) float64 { return p.y0 + 1 }
+
 func cvOptions(toks []string, withStart bool) []convert.Option {
 	var tags []string
 	if g := cvField(toks, "G"); g != "-" {
@@ -58,6 +72,8 @@ func cvOptions(toks []string, withStart bool) []convert.Option {
 		opts = append(opts, convert.PredictorOpt(&interp.PiecewiseLinear{}))
 	case "pc":
 		opts = append(opts, convert.PredictorOpt(&interp.PiecewiseConstant{}))
+	case "px":
+		opts = append(opts, convert.PredictorOpt(&cvShifted{}))
 	case "nil":
 		opts = append(opts, convert.PredictorOpt(nil))
 	}
@@ -341,7 +357,7 @@ func genCV(cfg *config, r *rng, i int, s *sink) string {
 		maxRows = 25
 	}
 	withOBD := r.chance(3, 4)
-	pr := pick(r, []string{"pl", "pl", "pl", "pc", "nil", "def"})
+	pr := pick(r, []string{"pl", "pl", "pl", "pc", "px", "nil", "def"})
 	if cfg.prop == "C03" || cfg.prop == "C12" {
 		pr = pick(r, []string{"nil", "nil", "pl", "def"})
 	}
